@@ -59,6 +59,16 @@ func main() {
 	}
 	start := time.Now()
 	code := 2
+	// a check that does not terminate is a broken check: fail (closed) instead of hanging.  The analysis of one
+	// property takes seconds; the limits are far above anything observed (thorough runs the variant expectations too).
+	limit := 20 * time.Minute
+	if *tier == "thorough" || *prop == "all" {
+		limit = 3 * time.Hour
+	}
+	time.AfterFunc(limit, func() {
+		fmt.Printf("CHECKER-TIMEOUT: the analysis did not finish within %v (path explosion in the checker?)\n", limit)
+		os.Exit(2)
+	})
 	func() {
 		defer func() {
 			if r := recover(); r != nil {
